@@ -244,3 +244,81 @@ func init() {
 	register(&Scenario{Prop: "C10", Name: "c10/servecodec", Quick: []Bound{{1, 0}, {2, 0}}, Thorough: []Bound{{3, 0}}, Body: c10Body(sysModes[:1])})
 	register(&Scenario{Prop: "C10", Name: "c10/allmodes", Quick: []Bound{{1, 0}}, Thorough: []Bound{{2, 0}}, Body: c10Body(sysModes)})
 }
+
+// a stream ends while many messages are unread on it (n = 20 / 70 / 150 / 300 on the server
+// behind a held handler, the same number pushed to a client that does not read): the stream's
+// Close returns, a sibling stream on the same connection keeps working, every handler and every
+// library thread ends once the connection is gone.  Default schedule and one deviation.
+func closeWithBacklog(prop string) func(x *X) {
+	return func(x *X) {
+		n := []int{20, 70, 150, 300}[x.Choose(4)]
+		side := x.Choose(2) // 0: unread on the server, 1: unread on the client
+		cliDio := x.Choose(2) == 1
+		end := x.Choose(2) // 0: Stream.Close then Conn.Close, 1: Conn.Close only
+		f := newFixture(srvOpts{bufSize: 64}, cliOpts{bufSize: 64, directIO: cliDio})
+		if side == 1 {
+			f.w.pushN = n
+		}
+		st, err := f.conn.NewStream("StreamSvc.Push")
+		if err != nil {
+			x.Fail(prop+"/open-failed/close-with-backlog", "NewStream: %v", err)
+			return
+		}
+		f.w.pushN = 0
+		sib, err := f.conn.NewStream("StreamSvc.Push")
+		if err != nil {
+			x.Fail(prop+"/open-failed/close-with-backlog", "NewStream (sibling): %v", err)
+			return
+		}
+		if side == 0 {
+			f.w.streamHold = true
+			for i := 0; i < n; i++ {
+				m := streamMsg(0x31, i%7)
+				st.WriteMessage(&m)
+			}
+		}
+		vs.Quiesce()
+		f.w.streamHold = false // (the held handler goes on; its echoes pile up unread on the client)
+		vs.Quiesce()
+		closed := false
+		if end == 0 {
+			vs.GoNamed("closer", func() { st.Close(); closed = true })
+			vs.Quiesce()
+			if !closed {
+				x.Fail("C10/close-blocked/close-with-backlog", "Stream.Close of a stream with %d unread messages (%s side) did not return", n, []string{"server", "client"}[side])
+			}
+			// the sibling stream still works
+			sm := streamMsg(0x32, 1)
+			var back []byte
+			sibDone := false
+			var serr error
+			vs.GoNamed("sibling", func() {
+				sib.WriteMessage(&sm)
+				serr = sib.ReadMessage(nil, &back)
+				sibDone = true
+			})
+			vs.Quiesce()
+			if !sibDone || serr != nil || !eqBytes(back, transform(sm)) {
+				x.Fail("C10/later-op-blocked/close-with-backlog", "after a stream with %d unread messages (%s side) was closed, a sibling stream on the same connection: exchange completed=%v err=%v", n, []string{"server", "client"}[side], sibDone, serr)
+			}
+		}
+		connClosed := false
+		vs.GoNamed("conncloser", func() { f.conn.Close(); connClosed = true })
+		vs.Quiesce()
+		if !connClosed {
+			x.Fail("C10/close-blocked/close-with-backlog", "Conn.Close did not return (a stream had %d unread messages on the %s side)", n, []string{"server", "client"}[side])
+		}
+		if f.w.streamsEx != f.w.streamsIn {
+			x.Fail("C10/handler-blocked/close-with-backlog", "%d stream handlers entered, %d returned after the connection was closed (a stream had %d unread messages)", f.w.streamsIn, f.w.streamsEx, n)
+		}
+		for _, t := range blockedThreads(nil) {
+			x.Fail("C20/thread-left-behind", "after a connection with a stream that had %d unread messages (%s side) was closed: %s", n, []string{"server", "client"}[side], t)
+		}
+		x.Outcome("n=%d side=%d dio=%v end=%d", n, side, cliDio, end)
+	}
+}
+
+func init() {
+	register(&Scenario{Prop: "C10", Name: "c10/close-with-backlog", Quick: []Bound{{0, 0}}, Thorough: []Bound{{1, 0}}, Body: closeWithBacklog("C10"), MaxSteps: 400000, BudgetQ: 15, BudgetT: 200, OnlyKeys: []string{"C10/", "panic/", "livelock/", "hang/"}})
+	register(&Scenario{Prop: "C20", Name: "c20/close-with-backlog", Quick: []Bound{{0, 0}}, Thorough: []Bound{{1, 0}}, Body: closeWithBacklog("C20"), MaxSteps: 400000, BudgetQ: 15, BudgetT: 200, OnlyKeys: []string{"C20/", "panic/", "livelock/", "hang/"}})
+}
